@@ -43,6 +43,9 @@ class AnyName:
     def kvc_eq(self, interp, other):
         return False        # never equal to the literal '__array_priority__' (a blade spelling starts with 'e')
 
+    def kvc_format(self, interp, spec):
+        return '<attribute-name>'
+
     def kvc_isinstance(self, interp, cls):
         classes = cls if isinstance(cls, tuple) else (cls,)
         return any(c is str for c in classes)
@@ -419,3 +422,300 @@ def vc_trivial_accessors(H):
                    and sets['_keys'] is keys and sets['_values'] is vals)
         return r
     H.run_paths(fuc2, '', body2)
+
+
+# =====================================================================================
+# MultiVector.__new__ : construction forms (C15)
+# =====================================================================================
+def _concrete_algebra(d, graded, parity_of):
+    """A concrete default-basis algebra table set (names, bins, grade index) written from the naming contract, with the
+    real Algebra._blade2canon replaced by its contract: non-canonical spellings get a *symbolic* swap count."""
+    import itertools
+    names = {}
+    for K in range(2 ** d):
+        names[K] = 'e' + ''.join(format(i + 1, 'x') for i in range(d) if K >> i & 1)
+    canon2bin = dict(sorted(((n, K) for K, n in names.items()), key=lambda x: (len(x[0]), x[0])))
+    ifg = {}
+    by_grade = {}
+    for n, K in canon2bin.items():
+        by_grade.setdefault(len(n) - 1, []).append(K)
+    for r in range(0, d + 2):
+        for comb in itertools.combinations(range(d + 1), r):
+            ifg[comb] = tuple(k for g in comb for k in by_grade.get(g, []))
+
+    def blade2canon(interp, me, args, kw):
+        name = args[0]
+        if name in canon2bin:
+            return name, 0
+        chars = name[1:]
+        try:
+            K = 0
+            for c in chars:
+                K |= 1 << (int(c, 16) - 1)
+        except ValueError:
+            K = 2 ** d
+        if K in names and len(set(chars)) == len(chars):
+            return names[K], parity_of(name)
+        return f'e{2 ** d}', 0
+    alg = sym('algebra', attrs={'canon2bin': canon2bin, 'bin2canon': names, 'indices_for_grades': ifg, 'd': d, 'graded': graded,
+                                '_blade2canon': sym('_blade2canon', callable_result=blade2canon)})
+    return alg, names, canon2bin, ifg
+
+
+def vc_new(H):
+    """The real body of MultiVector.__new__ is interpreted with *opaque coefficient values* and *symbolic spelling parities*
+    over concrete small default-basis algebras (d = 2, 3) and the construction forms below (bounded in shapes, unbounded in
+    values and parities).  Post: the (blade -> coefficient) view handed to fromkeysvalues is exactly the supplied one."""
+    fuc = H.fn(MV, 'MultiVector.__new__')
+    from collections.abc import Mapping
+    cases = []
+    for d in (2, 3):
+        full = 2 ** d
+        cases += [
+            (d, 'keys+values', dict(keys=(1, 3), nvals=2)),
+            (d, 'keys+values reversed order', dict(keys=(3, 0, 2), nvals=3)),
+            (d, 'string keys', dict(keys=('e12', 'e1'), nvals=2)),
+            (d, 'mapping int keys', dict(mapping=(2, 0, 3))),
+            (d, 'mapping str keys', dict(mapping=('e2', 'e', 'e12'))),
+            (d, 'full values', dict(nvals=full)),
+            (d, 'grades+values', dict(grades=(1,), nvals=d)),
+            (d, 'grades (0,2)+values', dict(grades=(0, 2), nvals=1 + d * (d - 1) // 2)),
+            (d, 'keyword blades canonical', dict(kw=('e1', 'e12'))),
+            (d, 'keyword blade odd/even spelling', dict(kw=('e', 'e21'))),
+            (d, 'length mismatch', dict(keys=(1, 2), nvals=3, expect='TypeError')),
+            (d, 'keys outside grades', dict(keys=(1, 3), nvals=2, grades=(1,), expect='ValueError')),
+            (d, 'invalid grade', dict(keys=(1,), nvals=1, grades=(d + 1,), expect='ValueError')),
+        ]
+    cases += [(3, 'keyword blade 3-cycle spelling', dict(kw=('e', 'e231'))),
+              (3, 'keyword blade transposition spelling', dict(kw=('e2', 'e132'))),
+              (2, 'graded: incomplete grade', dict(keys=(1,), nvals=1, graded=True, expect='ValueError')),
+              (2, 'graded: complete grade', dict(keys=(1, 2), nvals=2, graded=True)),
+              (2, 'name only', dict(name='x')),
+              (2, 'name + keys', dict(name='x', keys=(3, 1)))]
+    for d, label, spec in cases:
+        def body(ctx, d=d, label=label, spec=spec):
+            par = {}
+
+            def parity_of(name):
+                if name not in par:
+                    par[name] = SInt(z3.Int('swaps_' + name))
+                    ctx.assume(par[name].t >= 0)
+                return par[name]
+            alg, names, canon2bin, ifg = _concrete_algebra(d, spec.get('graded', False), parity_of)
+            made = []
+            fk = sym('fromkeysvalues', callable_result=lambda i, m, a, k: made.append((a, k)) or ('MV', a, k))
+            cls = sym('cls', attrs={'fromkeysvalues': fk})
+            vals = [sym(f'v{i}') for i in range(spec.get('nvals', 0))]
+            kwargs = {}
+            args = [cls, alg]
+            if 'mapping' in spec:
+                mvals = [sym(f'v{i}') for i in range(len(spec['mapping']))]
+                kwargs['values'] = dict(zip(spec['mapping'], mvals))
+                supplied = dict(zip(spec['mapping'], mvals))
+            elif 'kw' in spec:
+                kvals = [sym(f'v{i}') for i in range(len(spec['kw']))]
+                kwargs.update(dict(zip(spec['kw'], kvals)))
+                supplied = dict(zip(spec['kw'], kvals))
+            else:
+                if vals or 'keys' in spec and 'name' not in spec:
+                    kwargs['values'] = list(vals)
+                if 'keys' in spec:
+                    kwargs['keys'] = spec['keys']
+                if 'grades' in spec:
+                    kwargs['grades'] = spec['grades']
+                if 'name' in spec:
+                    kwargs['name'] = spec['name']
+                    kwargs['symbolcls'] = sym('symbolcls', callable_result=lambda i, m, a, k: ('SYMBOL', a[0]))
+                ks = spec.get('keys')
+                if ks is None:
+                    ks = ifg[spec['grades']] if 'grades' in spec else ifg[tuple(range(d + 1))]
+                supplied = dict(zip(ks, vals))
+            interp = Interp(ctx, source_name=MV)
+            env = {'Mapping': Mapping, 'Symbol': sym('Symbol'), 'sympify': sym('sympify')}
+            try:
+                r = H.closure(interp, fuc, env)(*args, **kwargs)
+                raised = None
+            except (TypeError, ValueError, KeyError, IndexError, AttributeError, AssertionError) as e:
+                r, raised = None, e
+            exp = spec.get('expect')
+            if exp:
+                # the property only demands that it raises (the documented type is recorded in the evidence)
+                ctx.oblige(f'new[{label}]: inconsistent input raises (documented: {exp}) instead of producing a multivector',
+                           raised is not None and not made, meta={'raised': repr(raised)})
+                if raised:
+                    raise raised
+                return r
+            if raised is not None or len(made) != 1:
+                ctx.oblige(f'new[{label}]: consistent input produces one multivector', False, meta={'raised': repr(raised)})
+                if raised:
+                    raise raised
+                return r
+            (a, k) = made[0]
+            a = list(a) + [k.get(x) for x in ('keys', 'values') if x in k]
+            okk = len(a) == 3 and a[0] is alg and isinstance(a[1], tuple) and all(isinstance(x, int) for x in a[1]) and isinstance(a[2], list) \
+                and len(a[1]) == len(a[2]) and len(set(a[1])) == len(a[1])
+            ctx.oblige(f'new[{label}]: fromkeysvalues(algebra, tuple of distinct int keys, list of as many values)', bool(okk), meta={'got': repr(a)})
+            if not okk:
+                return r
+            got = dict(zip(a[1], a[2]))
+            if 'name' in spec:
+                exp_keys = spec.get('keys') or ifg[tuple(range(d + 1))]
+                ok = tuple(a[1]) == tuple(exp_keys) and all(v == ('SYMBOL', 'x' + names[kk][1:]) for kk, v in got.items())
+                ctx.oblige(f'new[{label}]: one symbol per key, named name + blade digits, keys in the given order', bool(ok), meta={'got': repr(got)})
+                return r
+            # expected view: supplied (blade -> value), non-canonical spellings re-keyed with their parity sign
+            expv = {}
+            for key, v in supplied.items():
+                if isinstance(key, str):
+                    if key in canon2bin:
+                        expv[canon2bin[key]] = ('plain', v)
+                    else:
+                        K = 0
+                        for c in key[1:]:
+                            K |= 1 << (int(c, 16) - 1)
+                        expv[K] = ('signed', v, par[key])
+                else:
+                    expv[key] = ('plain', v)
+            ctx.oblige(f'new[{label}]: no supplied blade is dropped and none is invented', set(got) == set(expv),
+                       meta={'got': sorted(got), 'expected': sorted(expv)})
+            for K, e in expv.items():
+                if K not in got:
+                    continue
+                if e[0] == 'plain':
+                    ctx.oblige(f'new[{label}]: blade {names[K]} carries exactly the supplied coefficient', same(got[K], e[1]))
+                else:
+                    odd = ctx.decide(e[2].t % 2 == 1)
+                    want = Rec('unop', 'USub', e[1]) if odd else e[1]
+                    ctx.oblige(f'new[{label}]: permuted spelling of {names[K]} carries the coefficient times the permutation parity',
+                               same(got[K], want), meta={'got': repr(got[K]), 'expected': repr(want)})
+            if 'kw' not in spec and 'mapping' not in spec and 'keys' in spec:
+                ctx.oblige(f'new[{label}]: keys keep the given order', tuple(a[1]) == tuple(canon2bin[x] if isinstance(x, str) else x for x in spec['keys']))
+            return r
+        H.run_paths(fuc, f'd={d},{label}', body)
+
+
+def vc_contains(H):
+    fuc = H.fn(MV, 'MultiVector.__contains__')
+    for form in ('int', 'name'):
+        def body(ctx, form=form):
+            me = MVModel(ctx)
+            K = SKey.fresh('K', 0, (1 << W) - 1)
+            ctx.assume(me.alg.valid_key(K))
+            r = H.closure(Interp(ctx, source_name=MV), fuc)(me, K if form == 'int' else CanonName(K))
+            rt = r.t if isinstance(r, SBool) else z3.BoolVal(bool(r))
+            ctx.oblige('contains: blade in mv  <=>  the blade is stored', rt == me.inf(K.t))
+            return r
+        H.run_paths(fuc, f'item={form}', body)
+
+
+def _shaped_self(d, keys, parity_of=None):
+    alg, names, canon2bin, ifg = _concrete_algebra(d, False, parity_of or (lambda n: 0))
+    vals = [sym(f'v{i}') for i in range(len(keys))]
+    made = []
+
+    def ga(interp, me, name):
+        raise AttributeError(name)
+    me = sym('self', attrs={'algebra': alg, '_keys': tuple(keys), '_values': list(vals),
+                            'keys': sym('keys()', callable_result=lambda i, m, a, k: tuple(keys)),
+                            'values': sym('values()', callable_result=lambda i, m, a, k: list(vals)),
+                            'items': sym('items()', callable_result=lambda i, m, a, k: list(zip(keys, vals))),
+                            'fromkeysvalues': sym('fromkeysvalues', callable_result=lambda i, m, a, k: made.append((a, k)) or ('MV', a, k))})
+    # coefficient access by canonical name: contract of __getattr__ (vc_getattr)
+    for K, n in names.items():
+        me.attrs[n] = vals[keys.index(K)] if K in keys else 0
+    return me, alg, names, canon2bin, ifg, vals, made
+
+
+def vc_asfullmv(H):
+    """asfullmv(): every blade of the algebra in canonical (or binary) order with its stored coefficient, 0 when absent
+    (concrete shapes d = 2, 3, opaque values)."""
+    fuc = H.fn(MV, 'MultiVector.asfullmv')
+    for d, keys in ((2, (3, 1)), (2, ()), (3, (5, 0, 6)), (3, (7, 6, 5, 4, 3, 2, 1, 0))):
+        for canonical in (True, False):
+            def body(ctx, d=d, keys=keys, canonical=canonical):
+                me, alg, names, canon2bin, ifg, vals, made = _shaped_self(d, list(keys))
+                alg.kvc_len = lambda: 2 ** d
+                r = H.closure(Interp(ctx, source_name=MV), fuc)(me, canonical)
+                ok = len(made) == 1
+                ctx.oblige('asfullmv: builds one multivector', ok)
+                if not ok:
+                    return r
+                a, k = made[0]
+                ks, vs = k.get('keys', a[1] if len(a) > 1 else None), k.get('values', a[2] if len(a) > 2 else None)
+                exp_keys = tuple(canon2bin.values()) if canonical else tuple(range(2 ** d))
+                ctx.oblige('asfullmv: all blades, in canonical order (canonical=True) or binary order', tuple(ks) == exp_keys,
+                           meta={'got': repr(ks)})
+                exp_vals = [vals[list(keys).index(K)] if K in keys else 0 for K in exp_keys]
+                ctx.oblige('asfullmv: each blade carries its stored coefficient, 0 when absent; aligned with the keys',
+                           isinstance(vs, list) and same(vs, exp_vals), meta={'got': repr(vs)})
+                return r
+            H.run_paths(fuc, f'd={d},keys={keys},canonical={canonical}', body)
+
+
+def vc_map_filter(H):
+    fm = H.fn(MV, 'MultiVector.map')
+    ff = H.fn(MV, 'MultiVector.filter')
+    for nargs in (1, 2):
+        def body(ctx, nargs=nargs):
+            me, alg, names, canon2bin, ifg, vals, made = _shaped_self(2, [3, 0, 1])
+            func = sym('func', attrs={'__code__': sym('code', attrs={'co_argcount': nargs})})
+            r = H.closure(Interp(ctx, source_name=MV), fm)(me, func)
+            a, k = made[0] if made else ((), {})
+            ks, vs = k.get('keys'), k.get('values')
+            call = (lambda K, v: Rec('call', func, (K, v), {})) if nargs == 2 else (lambda K, v: Rec('call', func, (v,), {}))
+            ctx.oblige('map: same keys, func applied to every coefficient (with its key when func takes two arguments), order kept',
+                       len(made) == 1 and tuple(ks) == (3, 0, 1) and same(list(vs), [call(K, v) for K, v in zip((3, 0, 1), vals)]))
+            return r
+        H.run_paths(fm, f'func-args={nargs}', body)
+    for nargs in (1, 2):
+        def body(ctx, nargs=nargs):
+            me, alg, names, canon2bin, ifg, vals, made = _shaped_self(2, [3, 0, 1])
+            keep = [SBool(z3.Bool(f'keep{i}')) for i in range(3)]
+            func = sym('func', attrs={'__code__': sym('code', attrs={'co_argcount': nargs})},
+                       callable_result=lambda i, m, a, k: Rec('call', m, tuple(a), {}, truth=keep[[x.key() for x in vals].index(a[-1].key())]))
+            r = H.closure(Interp(ctx, source_name=MV), ff)(me, func)
+            kept = [i for i in range(3) if ctx.decide(keep[i].t)]
+            a, k = made[0] if made else ((), {})
+            ks, vs = k.get('keys'), k.get('values')
+            ctx.oblige('filter: exactly the entries for which func is true-ish survive, original coefficients, order and pairing kept',
+                       len(made) == 1 and tuple(ks) == tuple((3, 0, 1)[i] for i in kept) and same(list(vs), [vals[i] for i in kept]),
+                       meta={'got': repr((ks, vs))})
+            return r
+        H.run_paths(ff, f'func-args={nargs}', body)
+
+
+def vc_constructors(H):
+    """Algebra.multivector / evenmv / oddmv / purevector / scalar..pseudoquadvector: MultiVector(self, *args, grades=.., **kwargs)."""
+    REL = 'kingdon/algebra.py'
+    table = {'scalar': 0, 'vector': 1, 'bivector': 2, 'trivector': 3, 'quadvector': 4,
+             'pseudoscalar': 'd-0', 'pseudovector': 'd-1', 'pseudobivector': 'd-2', 'pseudotrivector': 'd-3', 'pseudoquadvector': 'd-4'}
+    d = 5
+    MVc = sym('MultiVector')
+    for meth, g in table.items():
+        fuc = H.fn(REL, f'Algebra.{meth}')
+
+        def body(ctx, meth=meth, g=g, fuc=fuc):
+            pv = []
+            me = sym('self', attrs={'d': d, 'purevector': sym('purevector', callable_result=lambda i, m, a, k: pv.append((a, k)) or 'PV')})
+            arg = sym('arg')
+            r = H.closure(Interp(ctx, source_name=REL), fuc, {'MultiVector': MVc})(me, arg, name='n')
+            grade = g if isinstance(g, int) else d - int(g[2:])
+            ctx.oblige(f'{meth}: purevector(*args, grade={g}, **kwargs)', len(pv) == 1 and same(tuple(pv[0][0]), (arg,))
+                       and pv[0][1] == {'grade': grade, 'name': 'n'} and r == 'PV', meta={'got': repr(pv)})
+            return r
+        H.run_paths(fuc, '', body)
+    for meth, grades in (('purevector', (3,)), ('evenmv', (0, 2, 4)), ('oddmv', (1, 3, 5)), ('multivector', None)):
+        fuc = H.fn(REL, f'Algebra.{meth}')
+
+        def body(ctx, meth=meth, grades=grades, fuc=fuc):
+            me = sym('self', attrs={'d': d})
+            arg = sym('arg')
+            kw = {'grade': 3} if meth == 'purevector' else {}
+            r = H.closure(Interp(ctx, source_name=REL), fuc, {'MultiVector': MVc, 'filter': filter})(me, arg, name='n', **kw)
+            exp_kw = {'name': 'n'}
+            if grades is not None:
+                exp_kw['grades'] = grades
+            ok = isinstance(r, Rec) and r.kind == 'call' and r.parts[0] is MVc and same(tuple(r.parts[1]), (me, arg)) and r.parts[2] == exp_kw
+            ctx.oblige(f'{meth}: MultiVector(self, *args, grades={grades}, **kwargs)', bool(ok), meta={'got': repr(r)})
+            return r
+        H.run_paths(fuc, '', body)
